@@ -1,5 +1,5 @@
 import MuscleModel.Pulse.Ops
-import MuscleModel.Pulse.Proofs13
+import MuscleModel.Pulse.Proofs14
 
 /-!
 # C20 — Pulse callbacks fire for every due node and never before their time
@@ -343,10 +343,17 @@ theorem fires_every_due_node (never d k : Nat) (w w' : World) (root t : Nat) (ht
     (0 when a node is left invalid).  PROVED: `≤` every stored time below the root after a disciplined sweep, with no hypothesis on
     the result (`wakeup_never_late`); here, for ANY run: `≤` the root's new aggregate, and `≤` every stored time if the result is
     settled; after an in-progress invalidation that survives the second pass the reported time is 0 (`lost_invalidate_live`).
-    STILL MISSING: `≥` (the minimum is attained).  It is FALSE for callbacks that invalidate an already recalculated node and raise
-    its request within one sweep — `min` is only ever lowered, so the superseded answer is reported (spurious early wake-up,
-    corrected in the next cycle; observation recorded in the report) — so it needs the stronger discipline "callbacks only change
-    requests".  Validated on every undisturbed sweep of the correspondence run by the direct oracle (= brute-force minimum). -/
+    NOW PROVED (`wakeup_is_min_quiet`, `wakeup_is_min_undisturbed`): exactness — `m` IS the minimum of the stored times below the
+    root, `never` if there is none — for every sweep whose `GetPulseTime` callbacks only answer and change requests (`GQuiet`: every
+    queued `GetPulseTime` script consists of `setRequest` actions; in particular: no scripts), from a state with `Inv`, `V` and a
+    parent relation of finite height.
+    STILL MISSING: exactness for callbacks that invalidate / attach / detach other nodes.  It is FALSE for callbacks that
+    invalidate an already recalculated node and raise its request within one sweep — `min` is only ever lowered, so the superseded
+    answer is reported (spurious early wake-up, corrected in the next cycle; witness at the end of the file) — so the quiet
+    discipline cannot simply be dropped; the exact boundary (e.g. "callbacks only lower the requests of nodes already
+    recalculated") is not formalised.  The finite-height hypothesis is needed as stated (the invariant alone allows an infinite
+    descending chain whose aggregate is attained nowhere); that it holds in every reachable state (acyclicity as an invariant of
+    the operations) is not proved.  Validated on every undisturbed sweep of the correspondence run by the direct oracle. -/
 theorem wakeup_is_min_partial (never d k : Nat) (w w' : World) (root now m : Nat)
     (h : managerGpt never d (k+1) w root now = some (w', m)) :
     m ≤ (w'.f root).agg ∧
@@ -362,6 +369,39 @@ theorem wakeup_is_min_partial (never d k : Nat) (w w' : World) (root now m : Nat
   omega
 
 /-! ## Asked again -/
+
+/-- `wakeup_is_min`, exact, for sweeps whose `GetPulseTime` callbacks only answer and change requests.
+    HYPOTHESES: `Inv` and `V` (both proved for the initial state, every public operation and the pulse sweep), `root` is a root,
+    `GQuiet w` = every queued `GetPulseTime` script consists of `setRequest` actions only (no invalidate / attach / detach), and the
+    parent relation has finite height (`ht` decreases from parent to child; true for every finite acyclic forest).
+    CONCLUSION: the reported wake-up time `m` is the minimum of the times stored for the nodes below the root after the sweep (all
+    of which have a standing request, `all_asked_after_sweep`): it is `≤` each of them, and it is attained by one of them — or it is
+    `never`, in which case (by the first part) every stored time is `never` too. -/
+theorem wakeup_is_min_quiet (never d k : Nat) (w w' : World) (root now m : Nat)
+    (h : managerGpt never d (k+1) w root now = some (w', m)) (hi : Inv never w.f) (hV : V w.f) (hq : GQuiet w)
+    (hroot : (w.f root).parent = none)
+    (hfin : ∃ ht : Nat → Nat, ∀ c p, (w.f c).parent = some p → ht c < ht p) :
+    (∀ n, Desc w'.f root n → m ≤ (w'.f n).myTime) ∧
+    (m = never ∨ ∃ n, Desc w'.f root n ∧ (w'.f n).myTime = m) :=
+  managerGpt_exact never d k w w' root now m h hi hV hq hroot hfin
+
+/-- the undisturbed sweep: no `GetPulseTime` scripts are queued at all (every callback just answers its stored request) -/
+theorem wakeup_is_min_undisturbed (never d k : Nat) (w w' : World) (root now m : Nat)
+    (h : managerGpt never d (k+1) w root now = some (w', m)) (hi : Inv never w.f) (hV : V w.f)
+    (hnone : ∀ n, w.gq n = []) (hroot : (w.f root).parent = none)
+    (hfin : ∃ ht : Nat → Nat, ∀ c p, (w.f c).parent = some p → ht c < ht p) :
+    (∀ n, Desc w'.f root n → m ≤ (w'.f n).myTime) ∧
+    (m = never ∨ ∃ n, Desc w'.f root n ∧ (w'.f n).myTime = m) :=
+  managerGpt_exact never d k w w' root now m h hi hV
+    (fun n acts ha => by rw [hnone n] at ha; cases ha) hroot hfin
+
+/-- non-vacuity: root 0 (request 500), child 1 (400), grandchild 2 (300), no scripts: the sweep reports 300, the request of the
+    grandchild -/
+example : ((runOps 1000 8 40 (World.init 1000)
+      [.attach 1 0, .attach 2 1, .setReq 0 500, .setReq 1 400, .setReq 2 300]).bind
+      fun w => managerGpt 1000 8 40 w 0 10).map
+      (fun r => (r.2, (r.1.f 2).myTime, (r.1.f 2).parent, (r.1.f 1).parent, (r.1.f 0).myTime, (r.1.f 1).myTime)) =
+    some (300, 300, some 1, some 0, 500, 400) := by decide +kernel
 
 /-- the asking rule of one node: `GetPulseTimeAux` asks every node it visits that has no standing request — first thing, passing
     the time the node requested before — and it returns from a node only when that node's NEEDSRECALC list is empty -/
